@@ -425,7 +425,8 @@ def make_bit(rnd, size):
 
 def make_dat(rnd, size, need_rows=True):
     while True:
-        model = gen_dat.random_model(rnd, max_other={'tiny': 1, 'small': 3, 'medium': 12, 'large': 30}[size],
+        # 'large': enough channels that declarations + header line + first row pass 4, 8 and 16 KiB (a mud log of 100-400 channels)
+        model = gen_dat.random_model(rnd, max_other={'tiny': 1, 'small': 3, 'medium': 12, 'large': rnd.choice([30, 150, 400])}[size],
                                      max_rows={'tiny': 2, 'small': 3, 'medium': 12, 'large': 400}[size])
         if model.rows or not need_rows:
             break
